@@ -219,6 +219,21 @@ struct RunSpec<'a> {
 
 /// Executes one request against a fresh scripted entity and emits head / poll* / body events.
 /// Returns the response headers (for echo construction).
+/// The ETag header of the response to the case's main request, from an unlogged run.
+fn probe_advertised_etag(case: &Value, method: &Method, hdrs: &[(HeaderName, HeaderValue)]) -> Option<Vec<u8>> {
+    let ent = ScriptedEntity::<Bytes>::from_case(&case["ent"], case.get("scripts"), case.get("dscript"));
+    let mut req = Request::builder().method(method.clone()).uri("/");
+    for (k, v) in hdrs {
+        req = req.header(k.clone(), v.clone());
+    }
+    let req = req.body(()).ok()?;
+    let r = std::panic::catch_unwind(std::panic::AssertUnwindSafe(|| {
+        let resp: http::Response<http_serve::Body<Bytes, BoxError>> = http_serve::serve(ent, &req);
+        resp.headers().get(http::header::ETAG).map(|v| v.as_bytes().to_vec())
+    }));
+    r.unwrap_or(None)
+}
+
 fn run_one(out: &mut Out, case: &Value, rs: &RunSpec) -> Option<http::HeaderMap> {
     // `seg`: the entity hands out multi-segment `Buf`s instead of contiguous `Bytes`
     if case.get("file").and_then(|s| s.as_bool()).unwrap_or(false) {
@@ -617,6 +632,17 @@ pub fn run(cases_path: &str, out_path: &str) {
             let f = make_case_file(case);
             let ev = text_or_hex(f["etag"]["s"].as_str().unwrap_or("").as_bytes());
             (f["etag"].clone(), f["mt"].clone(), ev)
+        } else if case["ent"]["etag2"]["k"].as_str() == Some("tag") {
+            // Volatile entity (its tag changes between two `etag()` calls inside one `serve`): the
+            // response is judged against the version it advertises. A silent probe run of the same
+            // request (fresh entity, same call counter) tells which one that is.
+            let adv = probe_advertised_etag(case, &method, &hdrs);
+            let e2 = &case["ent"]["etag2"];
+            if adv.as_deref() == e2["s"].as_str().map(|s| s.as_bytes()) {
+                (e2.clone(), case["ent"]["mt"].clone(), text_or_hex(e2["s"].as_str().unwrap().as_bytes()))
+            } else {
+                (case["ent"]["etag"].clone(), case["ent"]["mt"].clone(), etagv)
+            }
         } else {
             (case["ent"]["etag"].clone(), case["ent"]["mt"].clone(), etagv)
         };
